@@ -51,7 +51,7 @@ def judge(res, facts, inject, label, base, cnt):
         cnt["oracle_cocaller"] += 1
         if o.kind == "ok":
             continue
-        if inject is not None and inject[0] == "fault" and res.get("fault_call") == name:
+        if inject is not None and inject[0] in ("fault", "fault+cancel") and res.get("fault_call") == name:
             continue  # the injected fault hit this caller's own operation (its class is C15's business)
         if shared_h2 and o.kind == "exc" and documented(o.exc):
             # streams multiplexed on the connection the injection broke share its fate
